@@ -393,9 +393,7 @@ func bCvx(intp *Interpreter) error {
 	}
 	obj := intp.Stack[len(intp.Stack)-1]
 	if a, ok := obj.(Array); ok {
-		b := make(Procedure, len(a))
-		copy(b, a)
-		intp.Stack[len(intp.Stack)-1] = b
+		intp.Stack[len(intp.Stack)-1] = Procedure(a)
 	}
 	return nil
 }
